@@ -17,6 +17,7 @@ void ext2_time_advance(int64_t from, int64_t to);
 const char *ext2_uaf_prop(void);
 void ext2_teardown(struct rthr *th);
 void ext2_post_main(struct rthr *th);
+void ext2_blame_no_return(struct rthr *th);
 void ext2_install_obs(void);
 void ext2_run_begin(void);
 void ext2_obligations(void);
